@@ -361,6 +361,62 @@ SOLUTION_FOUND_NOTE = ('executor::solution_found ignores the result of its neste
                        'notified inconsistent_problem(), which clears the timelines; no input reaching it with a wrong outcome is known')
 
 
+def r9(ctx, fs, f):
+    """what propagate_bounds re-imposes after a back-jump is what tick() imposed: the bounds stored in the atom's adaptation equal the bound handed to the LRA theory."""
+    rid = 'C19.R9'
+    ctx.rule(rid, 'executor::tick: next to every lra_theory::set(x, V, sigma_xi) the adaptation stores [V, V] for that expression, both when the entry is new and when it exists '
+                  '(lb = V and ub = V); next to every set_lb(x, L, sigma_xi) it stores lb = L in both cases - so that the bounds re-imposed after back-tracking keep a started / ended atom where it was', floor=5)
+    env = LocalEnv(f)
+    n_sites = 0
+    for n in f.nodes():
+        cn = n.get('callee_name') or ''
+        if cn not in ('smt::lra_theory::set', 'smt::lra_theory::set_lb', 'smt::lra_theory::set_ub'):
+            continue
+        t = canon(n, env, subst=False)
+        V = t[4]
+        # the enclosing block that also holds the emplace into the adaptation's bounds
+        blk = None
+        for a in f.ancestors(n):
+            if a.get('k') == 'CompoundStmt' and any((m.get('callee_name') or '').endswith('::emplace') and 'bounds' in show(canon(m, env, subst=False)) for m in walk(a)
+                                                  if m.get('k') == 'CXXMemberCallExpr'):
+                blk = a
+                break
+        if blk is None:
+            raise AnalysisBroken('%s: no adaptation entry is stored next to %s' % (f.id, src(n)))
+        news, asg = [], {}
+        for m in walk(blk):
+            if m.get('k') == 'CXXNewExpr' and (m.get('t') or '').endswith('atom_adaptation::arith_bounds *'):
+                c = canon(m, env, subst=False)
+                inner = c[2] if isinstance(c, tuple) and len(c) > 2 else None
+                if isinstance(inner, tuple) and len(inner) == 4:
+                    news.append((inner[2], inner[3]))
+            if m.get('k') in ('BinaryOperator', 'CXXOperatorCallExpr') and m.get('op') == '=':
+                c = canon(m, env, subst=False)
+                if isinstance(c, tuple) and len(c) == 3 and isinstance(c[1], tuple) and c[1][0] == '.' and c[1][2] in ('lb', 'ub') and 'arith_bounds' in show(c[1]):
+                    asg.setdefault(c[1][2], []).append(c[2])
+        n_sites += 1
+        kind = cn.rsplit('::', 1)[-1]
+        if kind == 'set':
+            ok_new = bool(news) and all(a == V and b == V for a, b in news)
+            # an entry that may already exist (emplace(.., nullptr) + added test) must be overwritten on both sides
+            exists_branch = any('nullptr' in show(canon(m, env, subst=False)) for m in walk(blk) if m.get('k') == 'CXXMemberCallExpr' and (m.get('callee_name') or '').endswith('::emplace'))
+            ok_upd = (not exists_branch) or (asg.get('lb') == [V] and asg.get('ub') == [V])
+        elif kind == 'set_lb':
+            ok_new = bool(news) and all(a == V for a, b in news)
+            ok_upd = asg.get('lb') == [V] and 'ub' not in asg
+        else:
+            ok_new = bool(news) and all(b == V for a, b in news)
+            ok_upd = asg.get('ub') == [V] and 'lb' not in asg
+        ctx.instance(rid, [f.id, kind, short(n.get('loc'))], {'imposed': '%s(.., %s, sigma_xi)' % (kind, show(V)), 'stored_when_new': [[show(a), show(b)] for a, b in news],
+                                                             'stored_when_present': {k: [show(x) for x in v] for k, v in asg.items()}, 'ok': ok_new and ok_upd})
+        if not (ok_new and ok_upd):
+            ctx.finding(rid, f.id, '%s:%s' % (kind, show(V)), 'executor::tick imposes %s(.., %s, ..) but the adaptation kept for re-imposing it after a back-jump stores %s when the entry is new and %s when it '
+                        'already exists (an earlier delay): after a failure the bounds re-imposed are not the ones the atom was started / ended / delayed with, so something already executed can move' % (
+                            kind, show(V), [[show(a), show(b)] for a, b in news], {k: [show(x) for x in v] for k, v in asg.items()}), node=n)
+    if n_sites < 5:
+        raise AnalysisBroken('%s: fewer than five bound impositions found (%d)' % (f.id, n_sites))
+
+
 def run(ctx):
     fs = ctx.facts('F')
     f, g = tick_rules(ctx, fs)
@@ -368,4 +424,5 @@ def run(ctx):
     r6(ctx, fs, f)
     r7(ctx, fs)
     r8(ctx, fs)
+    r9(ctx, fs, f)
     ctx.note(SOLUTION_FOUND_NOTE)
